@@ -6,6 +6,8 @@ CONSTANTS Variant = "nobarrier"
  MCVs = {1}
  PolyMode = "few"
  MaxRedel = 0
+ MaxFault = 0
+ FaultNodes = {1, 2, 3}
  OrderMode = "eager"
 INVARIANTS TypeOK CountsDistinct NoFailure ThresholdIsT Agreement KeyedByShareIdx OwnShareMatches GroupKeyIsSum AnyTRecover AnyTSign BelowThresholdSafe
 PROPERTIES RedeliveryNoEffect BarrierComplete
